@@ -1009,32 +1009,8 @@ func (p *PikeVM) SearchWithCapturesAt(haystack []byte, at int) *MatchWithCapture
 		return nil
 	}
 
-	if at == len(haystack) {
-		// At end of input - check if empty string matches at this position.
-		// Must use matchesEmptyAt with full haystack context for correct
-		// look assertion evaluation (e.g., \B needs previous byte context).
-		if p.matchesEmptyAt(haystack, at) {
-			return &MatchWithCaptures{
-				Start:    at,
-				End:      at,
-				Captures: p.buildCapturesResult(nil, at, at),
-			}
-		}
-		return nil
-	}
-
-	if len(haystack) == 0 {
-		// Check if empty string matches (haystack is empty, pos=0)
-		if p.matchesEmptyAt(haystack, 0) {
-			return &MatchWithCaptures{
-				Start:    0,
-				End:      0,
-				Captures: p.buildCapturesResult(nil, 0, 0),
-			}
-		}
-		return nil
-	}
-
+	// The end of the input (and the empty input) take the ordinary search: an
+	// empty match there still carries the positions of groups that matched empty.
 	if p.nfa.IsAnchored() {
 		return p.searchAtWithCaptures(haystack, at)
 	}
@@ -2210,18 +2186,9 @@ func (p *PikeVM) SearchWithSlotTableCapturesAt(haystack []byte, at int) *MatchWi
 
 	numGroups := p.nfa.CaptureCount()
 
-	if at == len(haystack) {
-		if p.matchesEmptyAt(haystack, at) {
-			return p.buildCapturesFromSlots(nil, at, at)
-		}
-		return nil
-	}
-	if len(haystack) == 0 {
-		if p.matchesEmpty() {
-			return p.buildCapturesFromSlots(nil, 0, 0)
-		}
-		return nil
-	}
+	// An empty match at the end of the input still has capture positions (a
+	// group that matched the empty string is set, not absent), so the end of
+	// input goes through the same search as every other position.
 	_ = numGroups
 
 	if p.nfa.IsAnchored() {
